@@ -207,11 +207,23 @@ def run_contract(test: Contract, others: list[Contract] | None = None, funsigs: 
     results = []
     from halmos.mapper import BuildOut, DeployAddressMapper
 
-    with captured_logs() as buf, contextlib.redirect_stdout(out):
-        try:
-            results = hmain.run_contract(ctx)
-        except BaseException as e:  # noqa: BLE001
-            exc = f"{type(e).__name__}: {e}"
+    # z3 terms must not be released on halmos' solver-callback threads while the main thread is inside z3 (the cyclic
+    # garbage collector runs on whichever thread allocates; halmos has --disable-gc for the same reason): collections are
+    # made here, on the main thread, between runs
+    import gc
+
+    was = gc.isenabled()
+    gc.disable()
+    try:
+        with captured_logs() as buf, contextlib.redirect_stdout(out):
+            try:
+                results = hmain.run_contract(ctx)
+            except BaseException as e:  # noqa: BLE001
+                exc = f"{type(e).__name__}: {e}"
+    finally:
+        if was:
+            gc.enable()
+            gc.collect()
     return RunOut(results=results, stdout=out.getvalue(), logs=buf.getvalue(), exception=exc)
 
 
